@@ -206,8 +206,17 @@ int run_phantom(const Args& a) {
             d.boolean("short_scan", short_scan).str("insert_position", pos_class).boolean("split_during_round", split).num("result_keys", result_keys.size()).num("keys_present_after", want.size()).num("set_size", nv.size()).num("round", rd);
             return d;
         };
+        bool ordered = true;
+        for (std::size_t i = 0; i < result_keys.size(); ++i) {
+            if (i > 0 && result_keys[i] <= result_keys[i - 1]) { ordered = false; }
+            if (!std::binary_search(want.begin(), want.end(), result_keys[i])) { ordered = false; }
+        }
         if (!reader_problem.empty()) {
             rep.violation("phantom:reader-status", "reader failed: " + reader_problem, describe().done());
+        } else if (!ordered) {
+            // independent of the freshness of the version set: duplicates, disorder, keys outside the interval
+            rep.violation(std::string("phantom:") + (use_cursor ? "iscan" : "scan") + ":result-not-ascending-subset-of-interval",
+                          "the result contains a key twice, out of order, or a key that was never in the interval", describe().done());
         } else if (nv.empty()) {
             rep.violation("phantom:empty-version-set", "reader collected no node version", describe().done());
         } else if (all_fresh && !complete) {
@@ -281,6 +290,8 @@ int run_phantom_micro(const Args& a) {
     struct Race {
         std::string lk, rk;
         std::vector<std::string> ins;
+        std::vector<std::string> rem;  // present in-interval keys the writer removes first (mixed races)
+        std::string post;              // absent in-interval key inserted after both finished (C05 oracle on a concurrently taken read)
         uint32_t skew_reader{0}, skew_writer{0};
     } race;
     std::string storage = "pm";
@@ -291,6 +302,7 @@ int run_phantom_micro(const Args& a) {
     std::vector<std::string> result_keys;
     NvVec nv;
     bool all_fresh = true;
+    bool post_done = false, post_stale = false;
     uint64_t rinv = 0, rresp = 0, winv = 0, wresp = 0;
     std::atomic<int> writer_done{0};
     std::string reader_problem;
@@ -347,6 +359,22 @@ int run_phantom_micro(const Args& a) {
             for (auto& [body, ptr] : nv) {
                 if (ptr->get_stable_version() != body) { all_fresh = false; }
             }
+            post_done = false;
+            post_stale = false;
+            if (!race.post.empty() && all_fresh && reader_problem.empty()) {
+                // the read is over and its set is still fresh: a new key inserted into the covered interval now
+                // must make at least one recorded pair stale (the reader's session stays open: nodes stay valid)
+                Session s2;
+                s2.reenter();
+                status ps = yput(s2.tok, storage, race.post, make_value(next_id.fetch_add(1), race.post, 24), true);
+                s2.leave();
+                if (ps == status::OK) {
+                    post_done = true;
+                    for (auto& [body, ptr] : nv) {
+                        if (ptr->get_stable_version() != body) { post_stale = true; }
+                    }
+                }
+            }
             ses.leave();
             done.fetch_add(1);
         }
@@ -370,6 +398,7 @@ int run_phantom_micro(const Args& a) {
             ses.reenter();
             for (uint32_t k = race.skew_writer; k > 0; --k) { _mm_pause(); }
             winv = stamp();
+            for (auto& k : race.rem) { yk::remove(ses.tok, storage, k); }
             for (auto& k : race.ins) {
                 status s = yput(ses.tok, storage, k, make_value(next_id.fetch_add(1), k, 24), true);
                 if (s != status::OK) { rep.violation("phantom:insert-status", "unique insert of an absent key failed", JObj().str("got", st(s)).done()); }
@@ -454,6 +483,30 @@ int run_phantom_micro(const Args& a) {
                 if (k2 != race.ins[0]) { race.ins.push_back(k2); }
             }
         }
+        race.rem.clear();
+        race.post.clear();
+        bool mixed = r.chance(1, 3);
+        if (mixed) {
+            // the writer also removes one or two present keys of the interval
+            std::vector<std::string> pin;
+            for (auto& k : present) {
+                if (k >= race.lk && k <= race.rk) { pin.push_back(k); }
+            }
+            for (std::size_t i = 0; i < 2 && !pin.empty(); ++i) {
+                if (i == 0 || r.chance(1, 2)) {
+                    std::string k = pin[r.below(pin.size())];
+                    if (std::find(race.rem.begin(), race.rem.end(), k) == race.rem.end()) { race.rem.push_back(k); }
+                }
+            }
+        }
+        if (r.chance(1, 2)) {
+            // post-insert candidate: a removed key, or any absent key of the interval that is not inserted in this race
+            std::vector<std::string> pc = race.rem;
+            for (auto it = std::lower_bound(absent.begin(), absent.end(), race.lk); it != absent.end() && *it <= race.rk; ++it) {
+                if (std::find(race.ins.begin(), race.ins.end(), *it) == race.ins.end()) { pc.push_back(*it); }
+            }
+            if (!pc.empty()) { race.post = pc[r.below(pc.size())]; }
+        }
         race.skew_reader = static_cast<uint32_t>(r.below(r.chance(1, 2) ? 200 : 2000));
         race.skew_writer = static_cast<uint32_t>(r.below(r.chance(1, 2) ? 200 : 2000));
         writer_done.store(0);
@@ -475,7 +528,15 @@ int run_phantom_micro(const Args& a) {
         }
         for (auto& k : race.ins) { want.push_back(k); }
         std::sort(want.begin(), want.end());
+        // insert-only race: exact. mixed race: a removed key may or may not be in the result
         bool complete = result_keys == want;
+        if (!race.rem.empty()) {
+            std::vector<std::string> without;
+            for (auto& k : want) {
+                if (std::find(race.rem.begin(), race.rem.end(), k) == race.rem.end()) { without.push_back(k); }
+            }
+            complete = std::includes(result_keys.begin(), result_keys.end(), without.begin(), without.end());
+        }
         alloc::Counters c1 = alloc::counters();
         bool split = c1.node_allocs != c0.node_allocs;
         c0 = c1;
@@ -485,13 +546,30 @@ int run_phantom_micro(const Args& a) {
             d.num("result_keys", result_keys.size()).num("keys_present_after", want.size()).num("set_size", nv.size()).boolean("split", split).num("race", rc);
             return d;
         };
+        bool ordered = true;
+        for (std::size_t i = 0; i < result_keys.size(); ++i) {
+            if (i > 0 && result_keys[i] <= result_keys[i - 1]) { ordered = false; }
+            if (!std::binary_search(want.begin(), want.end(), result_keys[i])) { ordered = false; }
+        }
         if (!reader_problem.empty()) {
             rep.violation("phantom:reader-status", "reader failed: " + reader_problem, describe().done());
+        } else if (!ordered) {
+            // independent of the freshness of the version set: duplicates, disorder, keys outside the interval
+            rep.violation(std::string("phantom:") + (use_cursor ? "iscan" : "scan") + ":result-not-ascending-subset-of-interval",
+                          "the result contains a key twice, out of order, or a key that was never in the interval", describe().done());
         } else if (nv.empty()) {
             rep.violation("phantom:empty-version-set", "reader collected no node version", describe().done());
         } else if (all_fresh && !complete) {
             rep.violation(std::string("phantom:") + (use_cursor ? "iscan" : "scan") + ":insert-missed-with-fresh-version-set",
                           "every collected (version,node) pair is unchanged after the race, yet the result lacks a key that was inserted into the interval", describe().done());
+        }
+        if (post_done) {
+            rep.count("post_inserts_checked");
+            if (!post_stale) {
+                rep.violation(std::string("phantom:") + (use_cursor ? "iscan" : "scan") + ":post-insert-undetected",
+                              "after a (concurrently taken) read whose set was still fresh, an insert into the covered interval left every recorded pair fresh",
+                              describe().str("post_inserted", race.post).num("removed_during_read", race.rem.size()).done());
+            }
         }
         const char* cls = !overlap ? "no-overlap" : (all_fresh ? "fresh-and-complete" : "stale");
         rep.count(std::string("races_") + cls);
@@ -506,6 +584,8 @@ int run_phantom_micro(const Args& a) {
         }
         // ---- restore: remove what was inserted (quiescent)
         main_ses.reenter();
+        if (post_done) { yk::remove(main_ses.tok, storage, race.post); }
+        for (auto& k : race.rem) { yput(main_ses.tok, storage, k, make_value(next_id.fetch_add(1), k, 24)); }
         for (auto& k : race.ins) {
             if (yk::remove(main_ses.tok, storage, k) != status::OK) { rep.violation("phantom:inserted-key-lost", "a key whose insert returned OK cannot be removed at quiescence", JObj().str("key", k).done()); }
         }
